@@ -68,6 +68,24 @@ theorem call_untilted (w : Gen.WType) (one : K) (fs : List (Fld K)) (W0 W1 : Int
       | .image => FftCallOut.done .pupil (propagateFft one fs false W0 W1 dx0 dx1 du0 du1 wl z os shape scratch) := by
   cases w <;> rfl
 
+/-- **The grid and the reported wavelength of the model are the regenerated arithmetic of `_fft_shape`**: `fftShape` (and the advertised
+`scratchShape`) is `Gen.fftShapeOfAlpha` — the composition read from `fft_shape = np.round(np.reciprocal(alpha)).astype(int)` — with
+round-half-even and `1/·` whatever `floor` / `ceil` are, and `propWavelength` is the regenerated reduction (`np.min`) of the two
+regenerated per-axis wavelengths. Another rounding, a dropped reciprocal or another reduction in the source changes these
+definitions and this proof stops checking. -/
+theorem fft_shape_is_generated (fl ce : R → Int) (mx mean : R → R → R) (dx0 dx1 du0 du1 z wl : R) (os S0 S1 : Int) :
+    fftShape dx0 dx1 du0 du1 z wl os
+      = Gen.fftShapeOfAlpha FftLike.roundEven fl ce (fun a => RealLike.ofInt 1 / a)
+          (Gen.fftShapeAlpha dx0 dx1 du0 du1 z wl (RealLike.ofInt os)).1 (Gen.fftShapeAlpha dx0 dx1 du0 du1 z wl (RealLike.ofInt os)).2 ∧
+    scratchShape wl dx0 dx1 du0 du1 z os
+      = Gen.fftShapeOfAlpha FftLike.roundEven fl ce (fun a => RealLike.ofInt 1 / a)
+          (Gen.scratchShapeAlpha dx0 dx1 du0 du1 z wl (RealLike.ofInt os)).1 (Gen.scratchShapeAlpha dx0 dx1 du0 du1 z wl (RealLike.ofInt os)).2 ∧
+    propWavelength S0 S1 dx0 dx1 du0 du1 z wl os
+      = Gen.fftWavelengthReduce FftLike.min mx mean
+          (Gen.fftReportedWavelengths (RealLike.ofInt S0) (RealLike.ofInt S1) dx0 dx1 du0 du1 z wl (RealLike.ofInt os)).1
+          (Gen.fftReportedWavelengths (RealLike.ofInt S0) (RealLike.ofInt S1) dx0 dx1 du0 du1 z wl (RealLike.ofInt os)).2 :=
+  ⟨rfl, rfl, rfl⟩
+
 /-- **A scratch buffer of exactly the advertised `scratch_shape` (= `fft_shape`) is sufficient**, and so is any larger
 one: a call that is accepted without scratch is accepted with it -/
 theorem scratch_shape_sufficient (one : K) (fs : List (Fld K)) (W0 W1 : Int) (dx0 dx1 du0 du1 wl z : R) (os : Int)
